@@ -553,6 +553,10 @@ def run_corrupt(case):
     good = open(p, "rb").read()
     base = entries_of(Index(p))
     n = 0
+    # the reader: the default handle, or the handle a repository with index.skipHash / feature.manyFiles opens (skip_hash is a write-side
+    # option: a file that carries a real trailer must still be verified against it)
+    rkw = {"skip_hash": True} if case.get("reader") == "skip_hash" else {}
+    rtag = "/reader-opened-with-skip_hash" if rkw else ""
     for pos in range(len(good)):
         for pat in (0x01, 0x80):
             bad = bytearray(good)
@@ -561,8 +565,8 @@ def run_corrupt(case):
                 f.write(bad)
             n += 1
             try:
-                got = entries_of(Index(p))
-                viol.append({"sig": "C11/corrupt/byte-flip-not-detected/%s" % ("trailer" if pos >= len(good) - 20 else "header" if pos < 12 else "body"),
+                got = entries_of(Index(p, **rkw))
+                viol.append({"sig": "C11/corrupt/byte-flip-not-detected/%s%s" % ("trailer" if pos >= len(good) - 20 else "header" if pos < 12 else "body", rtag),
                              "pos": pos, "len": len(good), "version": case["version"], "same_entries": got == base})
             except Exception:
                 pass
@@ -571,16 +575,16 @@ def run_corrupt(case):
             f.write(good[:cut])
         n += 1
         try:
-            got = Index(p)
+            got = Index(p, **rkw)
             if cut == 0:
                 continue  # an empty file is an empty index by design? counted separately
-            viol.append({"sig": "C11/corrupt/truncation-not-detected/%s" % ("inside-trailer" if cut > len(good) - 20 else "before-trailer"),
+            viol.append({"sig": "C11/corrupt/truncation-not-detected/%s%s" % ("inside-trailer" if cut > len(good) - 20 else "before-trailer", rtag),
                          "cut": cut, "len": len(good), "version": case["version"]})
         except Exception:
             pass
     os.unlink(p)
     stats["corruptions"] = n
-    return {"viol": dedupe(viol), "stats": stats, "nontrivial": ["corrupt:v%d" % case["version"], "corrupt:%s" % case["seed"]], "evaluations": n}
+    return {"viol": dedupe(viol), "stats": stats, "nontrivial": ["corrupt:v%d" % case["version"], "corrupt:%s" % case["seed"], "corrupt-reader:%s" % (case.get("reader") or "default")], "evaluations": n}
 
 
 def worker_exit():
@@ -601,6 +605,7 @@ def main(ctx):
     for v in (2, 3, 4):
         for k in range(ctx.budget(1, 4)):
             cases.append({"kind": "corrupt", "seed": "%d/c/%d/%d" % (ctx.seed, v, k), "version": v})
+            cases.append({"kind": "corrupt", "seed": "%d/cs/%d/%d" % (ctx.seed, v, k), "version": v, "reader": "skip_hash"})
     ctx.rule = ("entry sets of 0..12 entries: arbitrary-byte paths, shared prefixes crossing v4 strip lengths 127/128 and 16383/16384, names of "
                 "0xFFE..0x2001 bytes, conflict stages with missing members, stat values to 2^63, float and (sec,nsec) times, assume-valid / "
                 "skip-worktree / intent-to-add bits, versions 2/3/4/default x skipHash x unknown extensions; git-written indexes via "
